@@ -33,9 +33,10 @@ def isIntSpace (c : Char) : Bool :=
   || (0x2000 ≤ n && n ≤ 0x200A) || n = 0x2028 || n = 0x2029 || n = 0x202F
   || n = 0x205F || n = 0x3000
 
-/-- scope of the `int()` model: ASCII, or one of the listed blanks (a non-ASCII
-character could be a Unicode decimal digit, which `int()` accepts). -/
-def intInScope (s : Str) : Bool := s.all (fun c => c.toNat < 128 || isIntSpace c)
+/-- scope of the `int()` model: Latin-1 (no decimal digit other than `0`..`9` below
+U+0100), or one of the listed blanks (another character could be a Unicode decimal
+digit, which `int()` accepts). -/
+def intInScope (s : Str) : Bool := s.all (fun c => c.toNat < 256 || isIntSpace c)
 
 def stripInt (s : Str) : Str :=
   ((s.dropWhile isIntSpace).reverse.dropWhile isIntSpace).reverse
